@@ -465,6 +465,16 @@ def cancel_run(ncancel=6, mw=1):
     return P(f"cancel-run{ncancel}-w{mw}", pool(max_workers=mw), ops)
 
 
+def cancel_run_then_resize(ncancel=8, old=1, new=2, cpu=1):
+    """Many cancelled backlog futures (more than the wake-ups still to come), then a request
+    for another size: the resize has to see the pending work drain."""
+    ops = [NEW] + [sub(f"r{i}", "ok", i) for i in range(3)]
+    ops += [sub(f"x{i}", "ok", i) for i in range(ncancel)]
+    ops += [["cancel", f"x{i}"] for i in range(ncancel)]
+    ops += [["reuse", dict(max_workers=new)], sub("h", "ok", 9), WAIT, shutdown(True)]
+    return P(f"cancel-run{ncancel}-resize-{old}to{new}", pool("reusable", old, None, cpu_count=cpu), ops)
+
+
 def idle_then_die(mw=1, timeout=0.05):
     """All workers idle out; the next task is re-spawned for and takes its worker down."""
     return P(f"idle-then-die-w{mw}", pool(max_workers=mw, timeout=timeout),
